@@ -8,6 +8,7 @@ use crate::oracle::dsp::*;
 use jbonsai::vocoder::Vocoder;
 use serde_json::json;
 use std::f64::consts::PI;
+use std::sync::atomic::{AtomicU64, Ordering};
 use std::sync::Mutex;
 
 fn lsp_sets(order: usize, full_upto: usize) -> Vec<Vec<f64>> {
@@ -102,7 +103,7 @@ pub fn run(tier: Tier) -> i32 {
     let orders: Vec<usize> = tier.pick((2..=24).filter(|o| *o <= 8 || o % 4 == 0 || *o == 23).collect(), (2..=24).collect());
     let stages: &[usize] = &[1, 2, 3, 4];
     let alphas = [0.0, 0.3, 0.6];
-    rep.set_rule("SCOPE: LSP orders x stages 1..4 x alpha {0,.3,.6} x {linear, log} gain x K {0.5,1,2}; LSP sets = all compositions of the order+1 gaps from {1,2,4} units (orders up to the full bound) or uniform + every single gap narrowed/widened (larger orders), plus for every order the two sets whose first (last) two gaps have the smallest legal spacing, all with spacing >= pi/(4(order+1)); real Vocoder pulse responses of the first and the second frame at F0=20Hz, and on every 5th case the 3rd/4th frame after a first frame with another gain (same frequencies) or with other frequencies; plus one thread visiting orders 24,3,23,2,16,5,.. in turn; oracle ln K - s ln|A(e^{jw~})| within 0.001 Np at grid frequencies within 100 dB of the peak, response finite and decaying; distinct = (order, stage, alpha, gain form, K, LSP set)");
+    rep.set_rule("SCOPE: LSP orders x stages 1..4 x alpha {0,.3,.6} x {linear, log} gain x K {0.5,1,2}; LSP sets = all compositions of the order+1 gaps from {1,2,4} units (orders up to the full bound) or uniform + every single gap narrowed/widened (larger orders), plus for every order the two sets whose first (last) two gaps have the smallest legal spacing, all with spacing >= pi/(4(order+1)); real Vocoder pulse responses of the first and the second frame at F0=20Hz, and on every 5th case the 3rd/4th frame after a first frame with another gain (same frequencies) or with other frequencies; plus every stage 5..128 once (orders 2..4, a mildly uneven LSP set whose spectrum stays measurable after the power s); plus one thread visiting orders 24,3,23,2,16,5,.. in turn; plus vocoders cloned in the middle of a 7-frame run compared bit for bit with the original; oracle ln K - s ln|A(e^{jw~})| within 0.001 Np at grid frequencies within 100 dB of the peak, response finite and decaying; distinct = (order, stage, alpha, gain form, K, LSP set)");
     rep.assume("LSP sets on the gap lattice only; nominal rate raised (8k..8M) only to lengthen T0 until the truncated tail is < 1e-9 of the peak");
     let mut cases: Vec<(usize, usize, f64, bool, f64, Vec<f64>)> = Vec::new();
     for &order in &orders {
@@ -225,6 +226,51 @@ pub fn run(tier: Tier) -> i32 {
             }
         }
     });
+    // stages beyond the enumerated 1..4 (the statement covers every s >= 1): each stage 5..128 once, low orders, mildly
+    // uneven LSP sets
+    {
+        let sweep: Vec<usize> = (5..=128).collect();
+        let n_sweep = AtomicU64::new(0);
+        rep.par_for(sweep.len(), 1, "C13 stage sweep", |i| {
+            let stage = sweep[i];
+            let order = [2usize, 3, 4][i % 3];
+            // uniform spacing with every other frequency moved by 0.4 gap / sqrt(stage): the spectrum is far from flat, yet its
+            // range after the power s stays measurable
+            let gap = PI / (order as f64 + 1.0);
+            let set: Vec<f64> = (1..=order).map(|j| gap * j as f64 + if j % 2 == 1 { 0.4 * gap / (stage as f64).sqrt() } else { 0.0 }).collect();
+            let set = &set;
+            let (alpha, lg, k) = [(0.0f64, false, 2.0f64), (0.42, true, 0.5), (0.3, false, 1.0)][(i / 3) % 3];
+            let mut params = vec![if lg { k.ln() } else { k }];
+            params.extend(set.iter());
+            rep.eval(1);
+            n_sweep.fetch_add(1, Ordering::Relaxed);
+            let rp = json!({"order": order, "stage": stage, "alpha": alpha, "log_gain": lg, "params_gain_then_lsp": params, "f0_hz": 20});
+            match response(order, stage, lg, alpha, 0.0, &params, 8_000_000) {
+                Err(p) => rep.violation(format!("panic@{}", site_of(&p)), p, rp),
+                Ok((h, _rate, tail, h2)) => {
+                    if tail.is_nan() || tail > 1e-6 {
+                        rep.violation("diverges", format!("stage {} (order {}): response not finite or not decaying", stage, order), rp);
+                        return;
+                    }
+                    let a = lsp_to_a(set);
+                    let want: Vec<f64> = grid.iter().map(|w| k.ln() - stage as f64 * poly_logmag(&a, warp(*w, alpha))).collect();
+                    let peak = want.iter().cloned().fold(f64::NEG_INFINITY, f64::max);
+                    let mut err = 0.0f64;
+                    for (w, wnt) in grid.iter().zip(&want) {
+                        if *wnt < peak - 100.0 * std::f64::consts::LN_10 / 20.0 {
+                            continue;
+                        }
+                        rep.cmp(2);
+                        err = err.max((logmag(&h, *w) - wnt).abs()).max((logmag(&h2, *w) - wnt).abs());
+                    }
+                    if !(err <= 0.001) {
+                        rep.violation("spectrum-high-stage", format!("stage {} (order {}, alpha {}, log_gain {}, K {}): |H| deviates {:.5} Np from K/|A(e^jw~)|^s", stage, order, alpha, lg, k, err), rp);
+                    }
+                }
+            }
+        });
+        rep.note("stage_sweep_cases", json!(n_sweep.load(Ordering::Relaxed)));
+    }
     // one thread, orders visited in a zig-zag from large to small: whatever a larger order left behind on this thread (scratch
     // tables that only grow) must not leak into a smaller one
     {
@@ -265,6 +311,19 @@ pub fn run(tier: Tier) -> i32 {
             }
         }
         rep.note("zigzag_order_cases", json!(n));
+    }
+    {
+        let mut cfgs = Vec::new();
+        for (order, stage, lg, alpha) in [(2usize, 1usize, false, 0.0f64), (5, 2, true, 0.42), (24, 4, false, 0.3), (9, 3, true, 0.6)] {
+            let gap = PI / (order as f64 + 1.0);
+            let mut pa = vec![if lg { 0.2 } else { 1.2 }];
+            pa.extend((1..=order).map(|j| gap * j as f64 + if j % 2 == 1 { 0.3 * gap } else { 0.0 }));
+            let mut pb = vec![if lg { -0.1 } else { 0.9 }];
+            pb.extend((1..=order).map(|j| gap * j as f64 - if j % 2 == 1 { 0.25 * gap } else { 0.0 }));
+            cfgs.push((order + 1, stage, lg, alpha, 0.0, pa, pb));
+        }
+        let n = crate::props::c06::clone_midstream(&rep, &cfgs);
+        rep.note("vocoder_clone_cases", json!(n));
     }
     let w = worst.lock().unwrap().clone();
     rep.note("bounds", json!({"orders": orders, "full_composition_up_to_order": full_upto, "stages": stages, "alphas": alphas, "K": [0.5,1.0,2.0], "frequencies": nfreq, "cases": cases.len(), "worst_error_np": w.0, "worst_case": w.1}));
